@@ -44,6 +44,7 @@ type World struct {
 	specFnDeclared      map[string]bool
 	ContractFiles       []string
 	mayEffect           map[*ssa.Function]int        // memo: 1 = no, 2 = yes, 3 = in progress
+	inlineOnly          map[*ssa.Function]int        // memo: 1 = no, 2 = yes
 	Renames             map[string]map[string]string // top-level function key -> (name used in the contracts -> current name)
 }
 
@@ -440,6 +441,84 @@ func (w *World) MayEffect(f *ssa.Function) bool {
 		w.mayEffect[f] = 1
 	}
 	return res
+}
+
+// inlinable: a non-generated function of the repository with a body and without contract, not recursive by
+// construction (the structural obligation no-recursion guards that; callClosure refuses re-entrant inlining).
+func (w *World) inlinable(f *ssa.Function) bool {
+	if f == nil || f.Blocks == nil || !IsRepo(f) || f.Parent() != nil {
+		return false
+	}
+	if o := f.Origin(); o != nil {
+		if w.Funcs[FuncKey(o)] == nil {
+			return false
+		}
+	} else if w.Funcs[FuncKey(f)] != f {
+		return false
+	}
+	if strings.HasPrefix(f.Name(), "init") {
+		return false
+	}
+	return w.SpecFor(f) == nil
+}
+
+// InlineOnly: f has no contract and is reached only through static calls from repository functions (never used as a
+// function value, never a method that can be called through an interface): every execution of f is then covered where
+// it is inlined, so it is not verified on its own against an empty precondition.
+func (w *World) InlineOnly(f *ssa.Function) bool {
+	if !w.inlinable(f) || f.Signature.Recv() != nil {
+		return false
+	}
+	if w.inlineOnly == nil {
+		w.inlineOnly = map[*ssa.Function]int{}
+		called := map[*ssa.Function]bool{}
+		valued := map[*ssa.Function]bool{}
+		var scan func(g *ssa.Function)
+		scan = func(g *ssa.Function) {
+			for _, b := range g.Blocks {
+				for _, in := range b.Instrs {
+					var calleeV ssa.Value
+					if ci, ok := in.(ssa.CallInstruction); ok {
+						calleeV = ci.Common().Value
+						if fn, ok := calleeV.(*ssa.Function); ok && !ci.Common().IsInvoke() {
+							if _, isGo := in.(*ssa.Go); isGo {
+								valued[fn] = true
+							} else if _, isDefer := in.(*ssa.Defer); isDefer {
+								valued[fn] = true
+							} else {
+								called[fn] = true
+							}
+						}
+					}
+					for _, op := range in.Operands(nil) {
+						if op == nil || *op == nil {
+							continue
+						}
+						if fn, ok := (*op).(*ssa.Function); ok && *op != calleeV {
+							valued[fn] = true
+						}
+					}
+				}
+			}
+			for _, a := range g.AnonFuncs {
+				scan(a)
+			}
+		}
+		for _, g := range w.Funcs {
+			if g.Parent() == nil {
+				scan(g)
+			}
+		}
+		for _, g := range w.Funcs {
+			switch {
+			case valued[g] || !called[g]:
+				w.inlineOnly[g] = 1
+			default:
+				w.inlineOnly[g] = 2
+			}
+		}
+	}
+	return w.inlineOnly[f] == 2
 }
 
 // isEffectKey reports whether key names an operation declared `effect` (the key under which its calls are logged).
